@@ -311,6 +311,19 @@ impl MemBuilderSizeable for TrackTight {
     fn build_with_size(&mut self, element_layout: Layout, capacity: usize) -> TrackMem { TrackMem::build2(element_layout, capacity, false, true) }
 }
 
+/// As `Track`, but a plainly built Mem (`MemBuilder::build`: `new_in`, `clone_empty*`, the prototype inside `clone`) is "warm": it
+/// already has room for 3 elements. Legal for a user backend - nothing may assume that a fresh Mem has capacity 0.
+#[derive(Clone, Copy, Default, Debug)]
+pub struct TrackWarm;
+pub const WARM: usize = 3;
+impl MemBuilder for TrackWarm {
+    type Mem = TrackMem;
+    fn build(&mut self, element_layout: Layout) -> TrackMem { TrackMem::build(element_layout, WARM, false) }
+}
+impl MemBuilderSizeable for TrackWarm {
+    fn build_with_size(&mut self, element_layout: Layout, capacity: usize) -> TrackMem { TrackMem::build(element_layout, capacity, false) }
+}
+
 /// Fixed-capacity (N elements), instrumented backend: `TrackFixedMem` is deliberately a distinct type that
 /// does NOT implement `MemResizable`.
 #[derive(Clone, Copy, Default, Debug)]
